@@ -10,6 +10,14 @@
 (* store is rejected; a tamper of the key store is accepted (declared don't-care); every region     *)
 (* except the key store lies inside an authenticated interval at Accept.                            *)
 (* GEN: the terminal action prints one JSON line per (kind, tampered field class, verdict).         *)
+(* Strengthening round: (1) payloads that end before byte 64 (56, 60) are shapes of every kind; for  *)
+(* the load-to-RAM kinds with HMAC they are the unsettled corner of MbiRom.tla (CertSplit): lemmas    *)
+(* UnsettledOnlyInCorner, CornerNeverAccepted, SplitPrefixCovered.  (2) Specials: the value classes    *)
+(* of CHAINED computations that a random input never meets - the running / final CRC value exactly     *)
+(* 0 or all ones at every offset where a block-wise implementation may split (image CRC, manifest CRC), *)
+(* the AES-CTR counter start 0 / all ones / low word(s) all ones (carry, wrap).  The ROM is indifferent *)
+(* to them (one pass; lemma SpecialsAccepted) - GEN emits them as the plan the harness has to REACH     *)
+(* with crafted payloads in every image class of the kind.                                              *)
 EXTENDS MbiRom, Json, IOUtils
 
 Full == IF "MC_FULL" \in DOMAIN IOEnv THEN IOEnv.MC_FULL = "1" ELSE FALSE
@@ -24,11 +32,20 @@ RomOf(k) ==
     [] k = "v21_dig" -> [type |-> 4, cb |-> 21, hmac |-> FALSE, tz |-> 556, man |-> 1]
     [] k = "v21_crc" -> [type |-> 4, cb |-> 21, hmac |-> FALSE, tz |-> 980, man |-> 2]
 
-AppLens == IF Full THEN {64, 68, 300, 4096, 20004} ELSE {64, 300}
+AppLens == IF Full THEN {56, 60, 64, 68, 300, 4096, 20004} ELSE {56, 60, 64, 300}
 KeyBytes == IF Full THEN {256, 384, 512} ELSE {256, 384}
 Depths == IF Full THEN 1..4 ELSE {1, 3}
 CertLen(kb) == CASE kb = 256 -> 800 [] kb = 384 -> 1060 [] OTHER -> 1320       \* padded DER length (abstract, multiple of 4)
 UdLens == IF Full THEN {0, 4, 32, 96} ELSE {0, 4}
+
+(* special value classes of chained computations: [what, cut (byte offset of the running value; 0 = the final value), cls] *)
+NoSp   == [what |-> "none", cut |-> 0, cls |-> "any"]
+CrcCuts == {32, 36, 40, 48, 52, 56, 64, 0}          \* word boundaries around the skipped CRC word at 40, end of the ROM words, end of the table
+           \cup (IF Full THEN {512, 1024, 4096} ELSE {})   \* chunk sizes of an implementation that streams the image
+SpCrc  == [what : {"crc"}, cut : CrcCuts, cls : {"zero", "ones"}]
+SpMan  == [what : {"mancrc"}, cut : {40, 0}, cls : {"zero", "ones"}]
+SpCtr  == [what : {"ctr"}, cut : {0}, cls : {"zero", "ones", "lo32ones", "lo64ones"}]
+Specials(kind) == {NoSp} \cup (CASE kind \in {"crc_xip", "crc_ram"} -> SpCrc [] kind = "v21_crc" -> SpMan [] kind = "v1_enc" -> SpCtr [] OTHER -> {})
 
 Shapes ==
   [kind : {"crc_xip", "crc_ram"}, app : AppLens, tzType : {0, 1, 2}, ks : {FALSE}, depth : {0}, kb : {0},
@@ -40,22 +57,26 @@ Shapes ==
   [kind : {"v1_ram", "v1_enc"}, app : AppLens, tzType : {0, 1, 2}, ks : BOOLEAN, depth : Depths, kb : KeyBytes,
    nKeys : {0}, used : {0}, curve : {0}, isk : {0}, ud : {0}, dig : {FALSE}]
   \cup
-  { sh \in [kind : {"v21_dig", "v21_crc"}, app : (IF Full THEN AppLens ELSE {300}), tzType : {0, 1}, ks : {FALSE}, depth : {0}, kb : {0},
+  { sh \in [kind : {"v21_dig", "v21_crc"}, app : (IF Full THEN AppLens ELSE {56, 300}), tzType : {0, 1}, ks : {FALSE}, depth : {0}, kb : {0},
             nKeys : (IF Full THEN 1..4 ELSE {1, 3}), used : 0..3, curve : {32, 48}, isk : {0, 64, 96}, ud : UdLens, dig : BOOLEAN] :
       /\ sh.used < sh.nKeys /\ (Full \/ sh.used \in {0, sh.nKeys - 1}) /\ (sh.isk = 0 => sh.ud = 0) /\ sh.isk <= 2 * sh.curve
-
+      /\ (sh.app < IvtLen => sh.nKeys = 1 /\ sh.ud = 0)           \* the small payloads: one key class is enough
       /\ (sh.kind = "v21_crc" => ~sh.dig) }
+(* a special is explored on one representative shape per kind (it is a property of the content, not of the layout) *)
+SpShape(sh) == sh.app = (IF sh.kind \in {"crc_xip", "crc_ram"} /\ Full THEN 4096 ELSE 300) /\ sh.tzType = 0 /\ ~sh.ks /\ sh.depth \in {0, 1} /\ sh.kb \in {0, 256} /\ sh.nKeys \in {0, 1}
+               /\ sh.curve \in {0, 32} /\ sh.isk = 0 /\ ~sh.dig
 
 (* ---- the documented layout: regions [n, a, b) of the image of a shape *)
 R(n, a, b) == [n |-> n, a |-> a, b |-> b]
 NonEmpty(seq) == SelectSeq(seq, LAMBDA r : r.b > r.a)
-Head64(w28name) == << R("head", 0, OffTotal), R("ivt_len", OffTotal, OffFlags), R("ivt_flags", OffFlags, OffW28),
-                      R(w28name, OffW28, OffW28 + 4), R("ivt_tail", OffW28 + 4, IvtLen) >>
+Min(a, b) == IF a < b THEN a ELSE b
+HeadRegs(w28name, app) == << R("head", 0, OffTotal), R("ivt_len", OffTotal, OffFlags), R("ivt_flags", OffFlags, OffW28),
+                         R(w28name, OffW28, OffW28 + 4), R("ivt_tail", OffW28 + 4, Min(IvtLen, app)) >>   \* the payload may end before byte 64
 
 BuildCrc(sh, rom) ==
   LET tz == TzBytes(rom, sh.tzType)  fl == sh.app + tz IN
   [fileLen |-> fl, w28 |-> 0, imgLen |-> 0,
-   reg |-> NonEmpty(Head64("crc_word") \o << R("app", IvtLen, sh.app), R("tz", sh.app, fl) >>)]
+   reg |-> NonEmpty(HeadRegs("crc_word", sh.app) \o << R("app", IvtLen, sh.app), R("tz", sh.app, fl) >>)]
 
 RECURSIVE CertRegs(_, _, _, _)
 CertRegs(i, n, at, len) == IF i > n THEN << >> ELSE << R("cert", at, at + 4 + len) >> \o CertRegs(i + 1, n, at + 4 + len, len)
@@ -69,9 +90,17 @@ BuildV1(sh, rom) ==
       ex == EncExtra(rom)
       tz == TzBytes(rom, sh.tzType)
       sigAt == cbEnd + ex + tz
-  IN [fileLen |-> sigAt + sh.kb, w28 |-> sh.app, imgLen |-> sigAt - shift, cbAt |-> cbAt, tabLen |-> tab, rkhAt |-> rkhAt,
+  IN IF rom.hmac /\ sh.app < IvtLen
+     THEN \* the corner: the block starts at sh.app, the HMAC (and key store) cut it in two at byte 64; same number of bytes
+          [fileLen |-> sigAt + sh.kb, w28 |-> sh.app, imgLen |-> sigAt - shift, cbAt |-> cbAt, tabLen |-> tab, rkhAt |-> rkhAt,
+           cbEnd |-> cbEnd, sigAt |-> sigAt,
+           reg |-> NonEmpty(HeadRegs("ivt_w28", sh.app) \o
+                    << R("cb_front", sh.app, IvtLen), R("hmac", IvtLen, IvtLen + HmacLen), R("keystore", IvtLen + HmacLen, IvtLen + shift),
+                       R("unsettled", IvtLen + shift, sigAt + sh.kb) >>)]
+     ELSE
+     [fileLen |-> sigAt + sh.kb, w28 |-> sh.app, imgLen |-> sigAt - shift, cbAt |-> cbAt, tabLen |-> tab, rkhAt |-> rkhAt,
       cbEnd |-> cbEnd, sigAt |-> sigAt,
-      reg |-> NonEmpty(Head64("ivt_w28") \o
+      reg |-> NonEmpty(HeadRegs("ivt_w28", sh.app) \o
                << R("hmac", IvtLen, IvtLen + (IF rom.hmac THEN HmacLen ELSE 0)),
                   R("keystore", IvtLen + HmacLen, IvtLen + shift),
                   R("app", IvtLen + shift, cbAt), R("cb_hdr", cbAt, cbAt + V1HdrLen) >>
@@ -94,7 +123,7 @@ BuildV21(sh, rom) ==
       dig == IF sh.dig THEN signer \div 2 ELSE 0
   IN [fileLen |-> sigAt + signer + dig, w28 |-> sh.app, imgLen |-> 0, cbAt |-> cbAt, rkrAt |-> rkrAt, tabLen |-> tabLen, keyAt |-> keyAt,
       rkrEnd |-> rkrEnd, iskSigAt |-> iskSigAt, cbEnd |-> cbEnd, manLen |-> manLen, sigAt |-> sigAt, signer |-> signer, digLen |-> dig,
-      reg |-> NonEmpty(Head64("ivt_w28") \o
+      reg |-> NonEmpty(HeadRegs("ivt_w28", sh.app) \o
                << R("app", IvtLen, cbAt), R("cb_hdr", cbAt, rkrAt), R("rkr_flags", rkrAt, rkrAt + 4), R("rkr_table", rkrAt + 4, keyAt),
                   R("rkr_key", keyAt, rkrEnd),
                   R("isk_hdr", rkrEnd, IF sh.isk = 0 THEN rkrEnd ELSE rkrEnd + 12),
@@ -109,26 +138,37 @@ Build(sh) == LET rom == RomOf(sh.kind) IN
 
 DontCare == {"keystore"}
 
-VARIABLES shape, t, s, img                                \* img = Build(shape), kept in the state so that it is computed once
-vars == <<shape, t, s, img>>
+VARIABLES shape, sp, t, s, img                            \* img = Build(shape), kept in the state so that it is computed once
+vars == <<shape, sp, t, s, img>>
 rom == RomOf(shape.kind)
 TReg == img.reg[t]
 Hit(a, b) == t # 0 /\ TReg.a < b /\ a < TReg.b           \* the tampered region meets [a, b)
 Aux(hit) == IF hit THEN BOOLEAN ELSE {TRUE}                \* an auxiliary check may or may not notice
 W2(n) == <<n \div 65536, n % 65536>>
 
-Init == /\ shape \in Shapes /\ img = Build(shape) /\ t \in 0..Len(img.reg) /\ s = S0
-Step(ok, nx) == s' = (IF ok THEN nx ELSE [s EXCEPT !.st = "Rejected"]) /\ UNCHANGED <<shape, t, img>>
+Corner == rom.hmac /\ shape.app < IvtLen                  \* the HMAC field lies inside the certificate block
+Init == /\ shape \in Shapes /\ img = Build(shape) /\ s = S0
+        /\ sp \in (IF SpShape(shape) THEN Specials(shape.kind) ELSE {NoSp})
+        /\ t \in (IF sp = NoSp THEN 0..Len(img.reg) ELSE {0})
+Step(ok, nx) == s' = (IF ok THEN nx ELSE [s EXCEPT !.st = "Rejected"]) /\ UNCHANGED <<shape, sp, t, img>>
+CrcChain(cuts) == \* what an executor reports: the planned special at its cut, "other" elsewhere
+  LET cs == { c \in cuts : c = 0 \/ c <= img.fileLen }
+      f(c) == <<c, IF sp.what \in {"crc", "mancrc"} /\ sp.cut = c THEN sp.cls ELSE "other">>
+      RECURSIVE Sq(_)
+      Sq(S) == IF S = {} THEN << >> ELSE LET c == CHOOSE x \in S : TRUE IN <<f(c)>> \o Sq(S \ {c})
+  IN Sq(cs)
 
 ReadIvt == s.st = "Ivt" /\
   LET e == [rd |-> TRUE, type |-> rom.type, totalLen |-> img.fileLen, fileLen |-> img.fileLen, tzType |-> shape.tzType,
             ks |-> shape.ks, w28 |-> W2(img.w28)] IN Step(IvtOK(rom, s, e), IvtNx(rom, s, e))
 CheckCrc == s.st = "Crc" /\
-  LET e == [ok |-> ~Hit(0, img.fileLen), frm |-> 0, to |-> img.fileLen, skipAt |-> OffW28, skipLen |-> 4] IN Step(CrcOK(rom, s, e), CrcNx(rom, s, e))
+  LET e == [ok |-> ~Hit(0, img.fileLen), frm |-> 0, to |-> img.fileLen, skipAt |-> OffW28, skipLen |-> 4, chain |-> CrcChain(CrcCuts)]
+  IN Step(CrcOK(rom, s, e), CrcNx(rom, s, e))
 CheckHmac == s.st = "Hmac" /\
   LET e == [ok |-> ~Hit(0, IvtLen + HmacLen), macAt |-> IvtLen, macLen |-> HmacLen, frm |-> 0, to |-> IvtLen, key |-> "AES-ECB(userKey, 0^16)"]
   IN Step(HmacOK(rom, s, e), HmacNx(rom, s, e))
-CertBlockV1 == s.st = "Cert" /\ rom.cb = 1 /\
+CertSplit == s.st = "Cert" /\ Corner /\ LET e == [at |-> img.w28] IN Step(SplitOK(rom, s, e), SplitNx(rom, s, e))
+CertBlockV1 == s.st = "Cert" /\ rom.cb = 1 /\ ~Corner /\
   LET e == [rd |-> TRUE, magicOk |-> TRUE, at |-> img.cbAt, hdrLen |-> V1HdrLen, imgLen |-> img.imgLen, count |-> shape.depth, tabLen |-> img.tabLen]
   IN Step(Cb1OK(rom, s, e), Cb1Nx(rom, s, e))
 CertV1 == s.st = "CertV1" /\ \E ok \in Aux(Hit(s.cb.at + V1HdrLen, s.cur + 4 + CertLen(shape.kb))) :
@@ -146,7 +186,7 @@ Decrypt == s.st = "Dec" /\
       e == [rd |-> TRUE, ok |-> TRUE, key |-> (IF shape.ks THEN "userKey" ELSE "AES-ECB(masterKey, 01 0^15 02 0^15)"),
             ivAt |-> img.cbEnd + EncIvtLen, ivLen |-> IvLen,
             segs |-> << <<img.cbEnd, img.cbEnd + EncIvtLen>>, <<EncIvtLen, IvtLen>>, <<IvtLen + s.shift, img.cbAt>>, <<img.cbEnd + EncIvtLen + IvLen, img.sigAt>> >>,
-            appLen |-> img.w28, tzLen |-> tz, plainLen |-> img.w28 + tz]
+            appLen |-> img.w28, tzLen |-> tz, plainLen |-> img.w28 + tz, ivClass |-> (IF sp.what = "ctr" THEN sp.cls ELSE "other")]
   IN Step(DecOK(rom, s, e), DecNx(rom, s, e))
 CertBlockV21 == s.st = "Cert" /\ rom.cb = 21 /\
   LET e == [rd |-> TRUE, magicOk |-> TRUE, verOk |-> TRUE, at |-> img.cbAt, size |-> img.cbEnd - img.cbAt] IN Step(Cb21OK(rom, s, e), Cb21Nx(rom, s, e))
@@ -164,7 +204,8 @@ Manifest == s.st = "Man" /\
   LET e == [rd |-> TRUE, magicOk |-> TRUE, verOk |-> TRUE, at |-> img.cbEnd, tzLen |-> TzBytes(rom, shape.tzType), totalLen |-> img.manLen, digestLen |-> img.digLen]
   IN Step(ManOK(rom, s, e), ManNx(rom, s, e))
 ManifestCrc == s.st = "ManCrc" /\
-  LET e == [ok |-> ~Hit(0, img.sigAt), at |-> img.sigAt - 4, frm |-> 0, to |-> img.sigAt - 4] IN Step(ManCrcOK(rom, s, e), ManCrcNx(rom, s, e))
+  LET e == [ok |-> ~Hit(0, img.sigAt), at |-> img.sigAt - 4, frm |-> 0, to |-> img.sigAt - 4, chain |-> CrcChain({40, 0})]
+  IN Step(ManCrcOK(rom, s, e), ManCrcNx(rom, s, e))
 VerifySigV21 == s.st = "Sig21" /\
   LET e == [rd |-> TRUE, ok |-> ~Hit(0, img.sigAt + img.signer), frm |-> 0, to |-> img.sigAt, sigAt |-> img.sigAt, sigLen |-> img.signer]
   IN Step(Sig21OK(rom, s, e), Sig21Nx(rom, s, e))
@@ -172,11 +213,12 @@ CheckDigest == s.st = "Dig" /\
   LET e == [rd |-> TRUE, ok |-> ~(Hit(0, img.sigAt) \/ Hit(img.sigAt + img.signer, img.fileLen)), at |-> img.sigAt + img.signer, len |-> img.digLen, frm |-> 0, to |-> img.sigAt]
   IN Step(DigOK(rom, s, e), DigNx(rom, s, e))
 Accept == s.st = "Done" /\ Step(AcceptOK(rom, s), AcceptNx(rom, s))
-Emit == /\ s.st \in {"Accepted", "Rejected"}
-        /\ PrintT(ToJson([kind |-> shape.kind, cls |-> (IF t = 0 THEN "none" ELSE TReg.n), verdict |-> s.st, enc |-> rom.type = 3]))
-        /\ s' = [s EXCEPT !.st = "End"] /\ UNCHANGED <<shape, t, img>>
+Emit == /\ s.st \in {"Accepted", "Rejected", "Unsettled"}
+        /\ PrintT(ToJson([kind |-> shape.kind, cls |-> (IF t = 0 THEN "none" ELSE TReg.n), verdict |-> s.st, enc |-> rom.type = 3,
+                           corner |-> Corner, app |-> shape.app, sp |-> sp]))
+        /\ s' = [s EXCEPT !.st = "End"] /\ UNCHANGED <<shape, sp, t, img>>
 Stutter == s.st = "End" /\ UNCHANGED vars
-Next == ReadIvt \/ CheckCrc \/ CheckHmac \/ CertBlockV1 \/ CertV1 \/ RkhTable \/ VerifySigV1 \/ Decrypt \/ CertBlockV21 \/ RootKeyRecord
+Next == ReadIvt \/ CheckCrc \/ CheckHmac \/ CertSplit \/ CertBlockV1 \/ CertV1 \/ RkhTable \/ VerifySigV1 \/ Decrypt \/ CertBlockV21 \/ RootKeyRecord
         \/ IskCert \/ CertBlockEnd \/ Manifest \/ ManifestCrc \/ VerifySigV21 \/ CheckDigest \/ Accept \/ Emit \/ Stutter
 Spec == Init /\ [][Next]_vars
 
@@ -186,6 +228,12 @@ TamperRejected == (s.st = "Accepted" /\ t # 0) => TReg.n \in DontCare
 DontCareAccepted == (s.st = "Rejected" /\ t # 0) => TReg.n \notin DontCare
 RegionsCovered == s.st = "Accepted" =>
   \A i \in 1..Len(img.reg) : img.reg[i].n \notin DontCare =>
-     \E iv \in s.cov : iv[1] <= img.reg[i].a /\ img.reg[i].b <= iv[2]
+     Reach(s.cov, img.reg[i].a, Cardinality(s.cov)) >= img.reg[i].b       \* authenticated intervals, chained, span the region
 NothingBeyond == s.st = "Accepted" => \A iv \in s.cov \cup s.dc : iv[2] <= img.fileLen
+(* the unsettled corner: reached exactly by the images it is meant for, never accepted, and its settled prefix (first 64 bytes + HMAC) is covered *)
+UnsettledOnlyInCorner == s.st = "Unsettled" => Corner
+CornerNeverAccepted == Corner => s.st # "Accepted"
+SplitPrefixCovered == (s.st = "Unsettled" /\ t # 0) => TReg.n \in {"keystore", "unsettled"}
+(* special value classes of chained computations change nothing for the ROM *)
+SpecialsAccepted == (sp # NoSp /\ s.st \in {"Accepted", "Rejected", "Unsettled"}) => s.st = "Accepted"
 =============================================================================
